@@ -35,6 +35,8 @@ def run_impl(descr) -> Any:
     from krrood.entity_query_language import result_quantification_constraint as rq
 
     n = descr["n"]
+    if descr.get("mode") == "reeval":
+        return run_reeval(descr)
     dom = list(range(1, n + 1))
     x = let(int, dom, name="x")
     shape = descr.get("shape", "entity")
@@ -97,6 +99,61 @@ def run_impl(descr) -> Any:
     return [rows, exn]
 
 
+class _Item:
+    """a mutable fact: whether item i currently satisfies the condition"""
+
+    def __init__(self, i, on):
+        self.i, self.on = i, on
+
+
+def run_reeval(descr) -> Any:
+    """the SAME query object evaluated twice with the data changed in between (first n0 items satisfy the condition, then
+    n): the second evaluation must behave exactly as a first evaluation over the new data (seeded C09-E: a memoised
+    the(...).evaluate() keeps returning the first answer)"""
+    from krrood.entity_query_language.entity import let, entity
+    from krrood.entity_query_language.quantify_entity import an, the
+    from krrood.entity_query_language import result_quantification_constraint as rq
+
+    n0, n = descr["n0"], descr["n"]
+    items = [_Item(i, i <= n0) for i in range(1, max(n0, n) + 1)]
+    x = let(_Item, items, name="x")
+    k = descr.get("k")
+    if descr["q"] == "the":
+        q = the(entity(x, x.on == True))  # noqa: E712
+    else:
+        try:
+            if k is None:
+                c = None
+            elif k[0] == "Range":
+                c = rq.Range(rq.AtLeast(k[1]), rq.AtMost(k[2]))
+            else:
+                c = getattr(rq, k[0])(k[1])
+        except Exception as e:  # noqa
+            return [-1, EXN.get(type(e).__name__, 99)]
+        q = an(entity(x, x.on == True), quantification=c) if c is not None else an(entity(x, x.on == True))  # noqa: E712
+    try:
+        r = q.evaluate()
+        if descr["q"] != "the":
+            list(r)
+    except Exception:  # noqa
+        pass
+    for it in items:
+        it.on = it.i <= n
+    if descr["q"] == "the":
+        try:
+            return [0, q.evaluate().i]
+        except Exception as e:  # noqa
+            name = type(e).__name__
+            return [EXN[name]] if name in ("NoSolutionFound", "MultipleSolutionFound") else [99, _h(name)]
+    rows, exn = [], 0
+    try:
+        for r in q.evaluate():
+            rows.append(r.i)
+    except Exception as e:  # noqa
+        exn = EXN.get(type(e).__name__, 99)
+    return [rows, exn]
+
+
 def _h(name: str) -> int:
     return sum(ord(c) for c in name)
 
@@ -132,6 +189,10 @@ def gen_cases(tier: str, seed: int) -> List[dict]:
             extra.append(dict(d, shape="setof"))
         if d["q"] == "an" and d["k"] is not None and rng.chance(0.06):
             extra.append(dict(d, mode="lockstep"))
+        if d.get("k") is None or (d["q"] == "an" and rng.chance(0.03)):
+            # re-evaluation of the same query object after the data changed (every the / unconstrained an, 3% of the rest)
+            for n0 in sorted({0, 1, 2, d["n"]} - {d["n"]} | ({3} if d["n"] != 3 else set())):
+                extra.append(dict(d, mode="reeval", n0=n0))
     return out + extra
 
 
@@ -146,7 +207,7 @@ def run(tier: str, seed: int, replay=None) -> int:
     rep.assume = ["CPython generator protocol: a generator that raises has yielded exactly the rows before the raise",
                   "rows come from let(int, [1..n]) with condition x >= 1: the child query itself is C01's concern"]
     rep.rule = ("exhaustive over n in 0..N and every Exactly/AtLeast/AtMost/Range constraint with bounds lo..hi (quick N=8,-1..9; thorough N=30,-2..32), "
-                "plus the(...) and unconstrained an(...), plus a seeded 10% re-run through set_of and a seeded 6% re-run as two evaluations of one query object consumed in lock-step (each must behave as the single evaluation the model describes); distinct = distinct (constraint, n, shape); "
+                "plus the(...) and unconstrained an(...), plus re-evaluations of the SAME query object after the data changed (every the(...) / unconstrained an(...) case from four earlier solution counts, 3% of the constrained ones), plus a seeded 10% re-run through set_of and a seeded 6% re-run as two evaluations of one query object consumed in lock-step (each must behave as the single evaluation the model describes); distinct = distinct (constraint, n, shape); "
                 "non-trivial = every case (each has a different expected outcome)")
     # Spec must always build (independent of the source)
     ok_spec, log = core.coq_make(["Base/Sx.vo", "Eql/QuantSpec.vo"])
